@@ -32,7 +32,8 @@ func parseFields(s string) modbus.Fields {
 }
 
 func buildRequests(target int, fields modbus.Fields) ([]modbus.BuilderRequest, error) {
-	b := modbus.NewRequestBuilder("", 0).AddAll(fields)
+	// the builder's own defaults must not reach fields added with AddAll ("AddAll does not set ServerAddress and UnitID")
+	b := modbus.NewRequestBuilder("dflt:9", 77).AddAll(fields)
 	switch target {
 	case 0:
 		return b.ReadCoilsTCP()
